@@ -98,6 +98,24 @@ CHECKS["C07"] = dict(
    note="Trusted: Lean kernel, Model/Disc.lean (tied three ways by the sync component), harness. Assumed: authenticated senders, HMAC tag collision freedom, well-formed Membership, expected >= 1. Two defects repaired (F25 two-pass read broke agreement; F26 a synchronisation expecting one member never completed).",
    technique="Lean 4 proof by inductive invariants over an interleaving transition system + step-exact and lockstep differential correspondence + monitored adversarial runs")
 
+CHECKS["C16"] = dict(
+   text="Lean 4 theorems for every environment (every behaviour of the TLS exporter, the ASN.1/PEM/x509 decoders, the signature scheme and the table): a connection is attributed to (domain, i) if and only if a well-formed handshake was received on it that carries "
+        "this connection's exporter value, an identity that parses to a certificate with an ECDSA key, a signature by that key over the re-encoded handshake with the signature field blanked, and a table entry for sha256(domain || identity) (attributed_iff); the same bytes are refused on any "
+        "connection with another exporter value (replay_rejected); no message appears on the channel without, and every message carries, that result (served_only_authenticated). The label 'registered under the claimed domain' is proved under a no-re-split hypothesis "
+        "that the code's key does not meet: kernel-checked witness and known finding KF-C16-domain-boundary. Tie: decision sequence regenerated from the source + differential runs on real TLS connections with mutated handshakes.",
+   design="4/C16",
+   note="Trusted: Lean kernel, Model/Net.lean, the net extractor, harness. Assumed: ECDSA unforgeability, TLS exporter uniqueness, SHA-256, Go's crypto and encoding libraries. One defect repaired (F27: remote crash by a handshake that cannot be re-encoded), one recorded (KF-C16-domain-boundary).",
+   technique="Lean 4 proof of the decision logic for all environments + regenerated decision sequence + differential correspondence on real TLS connections")
+
+CHECKS["C17"] = dict(
+   text="Lean 4 theorems, unbounded in sizes and lengths: every legal frame within the limit is written without panic and read back identically whatever follows (frame_roundtrip); any sequence of such frames written back to back is read as exactly that sequence (stream_roundtrip); "
+        "a frame announcing more than the limit is refused from its header alone (oversize_refused); a read frame is a prefix decomposition of the stream (readMsg_sound); for every interleaving of sending goroutines, writers and connection failures: no panic (no_panic), "
+        "frames accepted for a destination are taken by its writer in acceptance order (queue_fifo), and what a destination sees is independent of all events at other destinations (peer_failure_confined). "
+        "Tie: constants, layout and panic sites regenerated from the source; real writer and reader compared byte for byte; four real parties on loopback TLS with concurrent senders and each peer in turn down, stalled or garbling.",
+   design="4/C17",
+   note="Trusted: Lean kernel, Model/Net.lean, the net extractor, harness. Not modelled: TCP, TLS records, real time. One defect repaired (F28: panic on a full queue). Observation: the caller still waits ten seconds per message for a dead destination.",
+   technique="Lean 4 proof (round-trip by induction over frame sequences, interleaving-independent queue invariants) + regenerated constants + differential and live correspondence")
+
 CHECKS["C12"] = dict(
    text="Lean 4 theorems over the handler tables as a transition system with one action per lock acquisition: for every interleaving of a session's caller and callback threads (late callbacks included) the tables hold nothing under its keys afterwards (sign_no_residue, dkg_no_residue), "
         "re-admission, refusal of a duplicate session without any change, inertness of late traffic, and non-interference: any global interleaving of any number of sessions on disjoint keys projects onto each signing session's own run (noninterference, by a simulation argument). "
